@@ -255,7 +255,7 @@ def _svc(i):
 PROPERTY = Property(
     pid="C03",
     clauses=[
-        Clause(name="long-running-service", kind="custom", custom=lambda *a: _svc(0)(*a), check=lambda *a: _svc(1)(*a), quick=16, thorough=64, shards_quick=16, shards_thorough=16,
+        Clause(name="long-running-service", kind="custom", custom=lambda *a: _svc(0)(*a), check=lambda *a: _svc(1)(*a), quick=48, thorough=128, shards_quick=16, shards_thorough=16,
                rule="one fresh child interpreter and ONE long-lived model per case: 9 recurring line-ups each rated under ranks = dense classes and under a drawn "
                     "encoding of the same weak order, first; then 9 000 (quick) / 70 000 (thorough) other calls with ever new line-ups and scorelines; then the "
                     "recurring pairs again: both encodings identical, early and late; non-trivial = at least 4 200 calls in between"),
